@@ -31,7 +31,7 @@ func msg(i, size int) *prog.Msg { return &prog.Msg{N: int64(i + 1), TLen: size, 
 
 func gen(t *rapid.T) Case {
 	c := Case{
-		Instant: rapid.SampledFrom([]string{"before", "between", "between", "blocked-send", "blocked-recv", "blocked-recv", "tie", "typed-blocked", "typed-before", "handler-returns"}).Draw(t, "instant"),
+		Instant: rapid.SampledFrom([]string{"before", "between", "between", "between-burst", "blocked-send", "blocked-recv", "blocked-recv", "tie", "typed-blocked", "typed-before", "handler-returns"}).Draw(t, "instant"),
 		Mode:    rapid.SampledFrom([]string{"cancel", "deadline"}).Draw(t, "mode"),
 	}
 	s := &c.S
@@ -91,6 +91,27 @@ func gen(t *rapid.T) Case {
 			s.Client.Ops = append(s.Client.Ops, prog.COp{Op: "cancel"})
 		}
 		after(rapid.IntRange(1, 4).Draw(t, "nafter"))
+	case "between-burst":
+		// the handler sends a burst; the client takes a few messages, lets the
+		// rest arrive (and be buffered wherever the transport or the library
+		// buffers), then the context ends: the next Receive must not succeed
+		n := rapid.IntRange(4, 30).Draw(t, "burst")
+		s.Handler.Steps = append(s.Handler.Steps, prog.HStep{Op: "recv", N: 1})
+		for r := 0; r < n; r++ {
+			s.Handler.Steps = append(s.Handler.Steps, prog.HStep{Op: "send", Msg: msg(r, 5)})
+		}
+		s.Client.Ops = append(s.Client.Ops, prog.COp{Op: "send", Msg: msg(0, 10)})
+		for r := 0; r < rapid.IntRange(1, n-1).Draw(t, "taken"); r++ {
+			s.Client.Ops = append(s.Client.Ops, prog.COp{Op: "recv"})
+		}
+		if c.Mode == "deadline" {
+			s.DeadlineNS = T
+			s.Client.Ops = append(s.Client.Ops, prog.COp{Op: "sleep", D: T + 1e9})
+		} else {
+			s.Client.Ops = append(s.Client.Ops, prog.COp{Op: "sleep", D: 1e9}, prog.COp{Op: "cancel"})
+		}
+		s.Client.Ops = append(s.Client.Ops, prog.COp{Op: "recv"}, prog.COp{Op: "recv"})
+		after(rapid.IntRange(0, 2).Draw(t, "nafter"))
 	case "blocked-send":
 		// the handler does not read (it waits for its context to end); the payload exceeds every buffer
 		s.Handler.Final = &prog.ErrSpec{CtxErr: true}
@@ -168,7 +189,7 @@ func check(tt *testing.T, c Case) (pbt.Info, error) {
 	info.Label("mode:" + c.Mode)
 	info.Label("proto:" + s.Cfg.Protocol)
 	info.Label("transport:" + s.Transport)
-	info.NonTrivial = strings.HasPrefix(c.Instant, "blocked") || c.Instant == "between" || c.Instant == "tie" || c.Instant == "typed-blocked"
+	info.NonTrivial = strings.HasPrefix(c.Instant, "blocked") || strings.HasPrefix(c.Instant, "between") || c.Instant == "tie" || c.Instant == "typed-blocked"
 	want := uint32(1)
 	if c.Mode == "deadline" {
 		want = 4
@@ -286,7 +307,7 @@ func firstLines(s string, n int) string {
 
 var spec = pbt.Spec[Case]{
 	Prop: "C15", Name: "instants", Gen: gen, Check: check,
-	Rule: "programs whose handler is still running when the client context is cancelled or expires at a generated instant class: before any operation; between operations k and k+1; while a Send is blocked (handler not reading, payload larger than every buffer); while a Receive is blocked (handler waiting for input); within ±1 virtual ns of a handler reply (tie); during and before typed CallUnary/CloseAndReceive/server-stream calls; plus handlers that return the context package's own Canceled/DeadlineExceeded without client-side cancellation — × {cancel, deadline} × 3 protocols × {in-memory, real h2c / HTTP/1.1} with optional delays at yield points, in virtual time. Oracle: every data operation started after the context ended fails; every operation that fails at or after that instant has code canceled resp. deadline_exceeded (a Send may return the io.EOF-wrapping stream-closed error instead); nothing hangs; the handler's context is cancelled; no library goroutine remains. Non-trivial = instant falls inside a blocked operation, between two operations with the handler running, or is a tie",
+	Rule: "programs whose handler is still running when the client context is cancelled or expires at a generated instant class: before any operation; between operations k and k+1 (also in the middle of a burst of already-delivered messages); while a Send is blocked (handler not reading, payload larger than every buffer); while a Receive is blocked (handler waiting for input); within ±1 virtual ns of a handler reply (tie); during and before typed CallUnary/CloseAndReceive/server-stream calls; plus handlers that return the context package's own Canceled/DeadlineExceeded without client-side cancellation — × {cancel, deadline} × 3 protocols × {in-memory, real h2c / HTTP/1.1} with optional delays at yield points, in virtual time. Oracle: every data operation started after the context ended fails; every operation that fails at or after that instant has code canceled resp. deadline_exceeded (a Send may return the io.EOF-wrapping stream-closed error instead); nothing hangs; the handler's context is cancelled; no library goroutine remains. Non-trivial = instant falls inside a blocked operation, between two operations with the handler running, or is a tie",
 }
 
 func TestInstants(t *testing.T) { pbt.Run(t, spec) }
